@@ -115,7 +115,9 @@ type BundlePropertyExperimenter struct {
 
 func (p *BundlePropertyExperimenter) Len() uint16 {
 	length := uint16(unsafe.Sizeof(p.Type) + unsafe.Sizeof(p.Length) + unsafe.Sizeof(p.ExperimenterID) + unsafe.Sizeof(p.ExperimenterType))
-	return length + uint16(len(p.data))
+	length += uint16(len(p.data))
+	// A property is followed by zero bytes up to a multiple of 8 (the Length field does not count them).
+	return (length + 7) / 8 * 8
 }
 
 func (p *BundlePropertyExperimenter) MarshalBinary() (data []byte, err error) {
@@ -131,6 +133,9 @@ func (p *BundlePropertyExperimenter) MarshalBinary() (data []byte, err error) {
 	n += 4
 	if p.data != nil {
 		data = append(data, p.data...)
+	}
+	if pad := int(p.Len()) - len(data); pad > 0 {
+		data = append(data, make([]byte, pad)...)
 	}
 	return
 }
